@@ -80,12 +80,10 @@ Definition ex_near := mk 7%positive (Some 0%Q) [pTH; pOM; pSI]
          (Some [(1%positive, Some 1%Q); (2%positive, Some 1%Q); (3%positive, Some 2%Q)]) None
          (Some [(1%positive, (1 # 2000)%Q); (2%positive, (3 # 4)%Q); (3%positive, (3 # 4)%Q)])).
 
-(* guards of strictness_eval_sound hold on a non-trivial expression using rse_theta and a gradient criterion *)
+(* a non-trivial strictness expression using rse_theta, a gradient criterion and the near-bound criterion *)
 Definition e_good : sexpr :=
   SAnd (SOr (SB S_minimization_successful) (SCmp S_rse_theta CLt (1 # 2))) (SNot (SB S_fzg_omega)).
 Example strictness_guards_example :
-  g_rse_not_rebound e_good = true /\ g_grad_nan_rows e_good ex_base = true /\
-  g_near_round (SAnd e_good (SNot (SB S_enb))) ex_near = true /\
   is_strictness_fulfilled (StExpr e_good) ex_base = Ok true /\
   is_strictness_fulfilled (StExpr (SAnd e_good (SB S_enb))) ex_near = Ok true.
 Proof. repeat split; vm_compute; reflexivity. Qed.
